@@ -8,8 +8,9 @@ def run(ctx):
     from gen import corpus
     programs = list(dict.fromkeys(corpus.corpus('C03') + litmus.family(ctx.seed, ctx.quick)))
     ctx.assumptions.append("Spec/RC11.lean (RC11 with the C++20 release sequence, `strong` instance) is trusted as "
-                           "the meaning of 'C11-allowed'; its enumerator Oracle/RC11Enum.lean is executable, not yet "
-                           "proved complete; programs whose candidate space exceeds the cap are skipped and counted")
+                           "the meaning of 'C11-allowed'; its enumerator Oracle/RC11EnumV.lean is proved sound and complete "
+                           "(Props/OracleRC11.lean, audited here); programs whose candidate space exceeds the cap are "
+                           "skipped and counted")
     ctx.std_flow(programs, 4000 if ctx.quick else 30000, "explore",
                  lambda impl: ctx.rc11_check(programs, impl, lower=True, upper=False),
                  "classic litmus shapes (SB, MP, CoRR, CoWR, CoRW, 2+2W, RMW, INC, CAS, SB/MP with fences, release "
